@@ -14,7 +14,7 @@
     polynomial class) isolates the only analytic fact that is not proved here. *)
 From Coq Require Import Reals Lra Lia List String Bool Arith.
 From Coquelicot Require Import Coquelicot.
-From WG Require Import Lib.NumpySem Lib.Moments Lib.MomentsGCL.
+From WG Require Import Lib.NumpySem Lib.Moments Lib.MomentsGCL Lib.MomentsInt.
 From GenC13 Require Import MomentsGen.
 Import ListNotations.
 Local Open Scope R_scope.
@@ -180,7 +180,7 @@ Qed.
 Lemma qp_value N i : INR N - 1 <> 0 -> Nat.eqb i rp_lo = false ->
   qp N i = sqrt (1 - rpNode (INR N) i ^ 2) * (PI / (INR N - 1)).
 Proof.
-  intros H E. unfold qp, intNodeWeight_pp. rewrite E.
+  intros H E. unfold qp, intNodeWeight_pp. rewrite ?E.
   destruct (Nat.eqb (S i) (rp_hi N)); field; exact H.
 Qed.
 
@@ -386,6 +386,22 @@ Definition integrand_in_class (s : gst) (N : nat) (msq : R) (g : R -> R -> R -> 
     measure pz pp msq (s_dpzdrz s rz) (s_dppdrp s rp) * g (sqrt (Esq msq pz pp)) pz pp * f rz rp
     = kappa * (sqrt (1 - rz ^ 2) * Ucomb A rz) * (sqrt (1 - rp ^ 2) * Ucomb B rp).
 
+(** non-vacuity: for ANY kappa, A, B the deviation built by dividing out measure*g (this is
+    how the harness builds its oracle family) is in the class *)
+Example class_inhabited s N msq g kappa A B :
+  let mg := fun rz rp =>
+    let pz := s_pzValues s rz in let pp := s_ppValues s rp in
+    measure pz pp msq (s_dpzdrz s rz) (s_dppdrp s rp) * g (sqrt (Esq msq pz pp)) pz pp in
+  (forall i j, (rz_lo <= i < rz_hi N)%nat -> (rp_lo <= j < rp_hi N)%nat ->
+     mg (rzNode (INR N) i) (rpNode (INR N) j) <> 0) ->
+  integrand_in_class s N msq g
+    (fun rz rp => kappa * (sqrt (1 - rz ^ 2) * Ucomb A rz) * (sqrt (1 - rp ^ 2) * Ucomb B rp)
+                  / mg rz rp) kappa A B.
+Proof.
+  intros mg H i j Hi Hj. cbv zeta. specialize (H i j Hi Hj). unfold mg in *. cbv zeta in H.
+  field. split; intro Z; apply H; rewrite Z; ring.
+Qed.
+
 Lemma exact_sum_lem s N msq g f kappa A B :
   (3 <= N)%nat -> (List.length A + 2 <= 2 * N)%nat -> (List.length B + 4 <= 2 * N)%nat ->
   integrand_in_class s N msq g f kappa A B ->
@@ -402,10 +418,24 @@ Proof.
   rewrite E. ring.
 Qed.
 
+(** ... and that value is the integral of the class member over [-1,1], written in the angle
+    x = cos t:  int sqrt(1-x^2) q(x) dx = int_0^pi sin(t)^2 q(cos t) dt  (proved integral) *)
+Lemma exact_angle_lem s N msq g f kappa A B :
+  (3 <= N)%nat -> (List.length A + 2 <= 2 * N)%nat -> (List.length B + 4 <= 2 * N)%nat ->
+  integrand_in_class s N msq g f kappa A B ->
+  gd_sum s N msq g f =
+  kappa * RInt (fun t => sin t ^ 2 * Ucomb A (cos t)) 0 PI
+        * RInt (fun t => sin t ^ 2 * Ucomb B (cos t)) 0 PI.
+Proof.
+  intros. rewrite (is_RInt_unique _ _ _ _ (Ucomb_angle_integral A)).
+  rewrite (is_RInt_unique _ _ _ _ (Ucomb_angle_integral B)).
+  apply exact_sum_lem; assumption.
+Qed.
+
 Section Exactness.
-(** the ONLY analytic fact not proved here: orthogonality of the Chebyshev polynomials of
-    the second kind for the weight sqrt(1-x^2) (with linearity of the integral), i.e. the
-    value of the continuous integral of a member of the class *)
+(** the same in the variable x needs the substitution x = cos t, i.e. the classical
+    orthogonality of the U_j for the weight sqrt(1-x^2); this is the ONLY analytic fact not
+    proved here and it is an explicit premise of the _dx theorem only *)
 Hypothesis chebU_weight_integral : forall c : list R,
   RInt (fun x => sqrt (1 - x ^ 2) * Ucomb c x) (-1) 1 = PI / 2 * nth 0 c 0.
 
@@ -530,6 +560,20 @@ Proof. intros N c. split; [apply pz_rule_exact_lem|apply pp_rule_exact_lem]. Qed
 Print Assumptions quadrature_rules_exact_on_class.
 
 Theorem moments_exact_on_class : forall s N msq g f kappa A B,
+  (3 <= N)%nat -> (List.length A + 2 <= 2 * N)%nat -> (List.length B + 4 <= 2 * N)%nat ->
+  integrand_in_class s N msq g f kappa A B ->
+  gd_sum s N msq g f =
+  kappa * RInt (fun t => sin t ^ 2 * Ucomb A (cos t)) 0 PI
+        * RInt (fun t => sin t ^ 2 * Ucomb B (cos t)) 0 PI /\
+  is_RInt (fun t => sin t ^ 2 * Ucomb A (cos t)) 0 PI (PI / 2 * nth 0 A 0) /\
+  is_RInt (fun t => sin t ^ 2 * Ucomb B (cos t)) 0 PI (PI / 2 * nth 0 B 0).
+Proof.
+  intros. split; [apply exact_angle_lem; assumption|].
+  split; apply Ucomb_angle_integral.
+Qed.
+Print Assumptions moments_exact_on_class.
+
+Theorem moments_exact_on_class_dx : forall s N msq g f kappa A B,
   (forall c : list R, RInt (fun x => sqrt (1 - x ^ 2) * Ucomb c x) (-1) 1 = PI / 2 * nth 0 c 0) ->
   (3 <= N)%nat -> (List.length A + 2 <= 2 * N)%nat -> (List.length B + 4 <= 2 * N)%nat ->
   integrand_in_class s N msq g f kappa A B ->
@@ -537,7 +581,7 @@ Theorem moments_exact_on_class : forall s N msq g f kappa A B,
   kappa * RInt (fun x => sqrt (1 - x ^ 2) * Ucomb A x) (-1) 1
         * RInt (fun x => sqrt (1 - x ^ 2) * Ucomb B x) (-1) 1.
 Proof. intros s N msq g f kappa A B H. apply exact_lem. exact H. Qed.
-Print Assumptions moments_exact_on_class.
+Print Assumptions moments_exact_on_class_dx.
 
 (** non-vacuity: a state produced by the constructor, a positive mass, a velocity *)
 Example hypotheses_satisfiable :
